@@ -33,11 +33,12 @@ def render(c):
     if "generics" in cs:
         g = "G: Clone" if "where" not in cs else "G"
         head += {"type": f"<{g}>", "const-first": f"<const N: usize, {g}>", "lifetime": f"<'t, {g}>", "default": f"<{g} = u8>",
-                 "mixed": f"<'t, const N: usize, {g} = u8>"}[c["gk"]]
+                 "mixed": f"<'t, const N: usize, {g} = u8>", "lifetime-where": f"<'t, 'u, {g}>"}[c["gk"]]
     if "supertrait" in cs:
         head += ": Sup + 'static"
-    if "where" in cs:
-        head += " where G: Clone + Send"
+    preds = (["'t: 'u"] if c.get("gk") == "lifetime-where" else []) + (["G: Clone + Send"] if "where" in cs else [])
+    if preds:
+        head += " where " + ", ".join(preds)
     body = []
     if "assoc-type" in cs:
         body.append("    /// An associated type.\n    type A: Send;")
@@ -125,7 +126,7 @@ def main():
     chk.cov["evaluations"] = len(events)
     chk.cov["cases_enumerated"] = len(cases)
     chk.cov["distinct_nontrivial"] = sum(1 for e in events if e["o"]["found"] and len(byid[e["case"]]["comps"]) >= 1)
-    chk.cov["rule"] = ("every subset of 13 trait components {doc, lint attribute, pub, unsafe, generics (5 shapes: type / const-before-type / lifetime / defaulted / all), supertrait, where, default body, "
+    chk.cov["rule"] = ("every subset of 13 trait components {doc, lint attribute, pub, unsafe, generics (6 shapes: type / const-before-type / lifetime / defaulted / all / two lifetimes with an outlives where-predicate), supertrait, where, default body, "
                        "associated type, method doc/attribute, method cfg, async methods, second method} x 8 trait-mode option sets; quick: all "
                        "subsets of size <= 2 and >= 11 plus 1500 seeded others; non-trivial = expanded and at least one component")
     chk.cov["exhaustive"] = bool(thorough)
